@@ -78,6 +78,53 @@ func (vm *VM) runRecoverable() (err error) {
 	return nil
 }
 
+// runBody executes the body of a range statement and returns as run does.
+//
+// A range statement executes its body in a nested call: if the panic of a
+// function called by the body, or of the body itself, unwound the Go stack up
+// to runFunc, the iteration would be lost when a deferred function recovers.
+// So the panic is handled here as runFunc does: the deferred calls are
+// executed by the nested call. If the function that has the range statement
+// returns because of the panic, the execution goes on in the nested call and
+// the range statement, that is no longer active, only passes the returned
+// address to the statements that enclose it.
+func (vm *VM) runBody() (Addr, bool) {
+	for {
+		addr, breakOut, err := vm.runBodyRecoverable()
+		if err == nil {
+			return addr, breakOut
+		}
+		p, ok := err.(*PanicError)
+		if !ok {
+			// The execution has been stopped: runFunc returns the error.
+			panic(err)
+		}
+		p.next = vm.panic
+		vm.panic = p
+		if len(vm.calls) == 0 {
+			return maxUint32, false
+		}
+		vm.calls = append(vm.calls, callFrame{cl: callable{fn: vm.fn}, renderer: vm.renderer, fp: vm.fp, status: panicked})
+		vm.fn = nil
+	}
+}
+
+func (vm *VM) runBodyRecoverable() (addr Addr, breakOut bool, err error) {
+	panicking := true
+	defer func() {
+		if panicking {
+			msg := recover()
+			err = vm.convertPanic(msg)
+		}
+	}()
+	addr = maxUint32
+	if vm.fn != nil || vm.nextCall() {
+		addr, breakOut = vm.run()
+	}
+	panicking = false
+	return addr, breakOut, nil
+}
+
 func (vm *VM) run() (Addr, bool) {
 
 	var hasDefaultCase bool
@@ -1208,6 +1255,7 @@ func (vm *VM) run() (Addr, bool) {
 			endAddress := vm.pc
 			rangeAddress := endAddress - 1
 			bodyAddress := endAddress + 1
+			depth := len(vm.calls)
 			v := vm.general(a)
 			switch s := v.Interface().(type) {
 			case []int:
@@ -1219,8 +1267,8 @@ func (vm *VM) run() (Addr, bool) {
 						vm.setInt(c, int64(v))
 					}
 					vm.pc = bodyAddress
-					addr, breakOut := vm.run()
-					if addr != rangeAddress {
+					addr, breakOut := vm.runBody()
+					if addr != rangeAddress || len(vm.calls) < depth {
 						return addr, breakOut
 					}
 					if breakOut {
@@ -1236,8 +1284,8 @@ func (vm *VM) run() (Addr, bool) {
 						vm.setInt(c, int64(v))
 					}
 					vm.pc = bodyAddress
-					addr, breakOut := vm.run()
-					if addr != rangeAddress {
+					addr, breakOut := vm.runBody()
+					if addr != rangeAddress || len(vm.calls) < depth {
 						return addr, breakOut
 					}
 					if breakOut {
@@ -1253,8 +1301,8 @@ func (vm *VM) run() (Addr, bool) {
 						vm.setInt(c, int64(v))
 					}
 					vm.pc = bodyAddress
-					addr, breakOut := vm.run()
-					if addr != rangeAddress {
+					addr, breakOut := vm.runBody()
+					if addr != rangeAddress || len(vm.calls) < depth {
 						return addr, breakOut
 					}
 					if breakOut {
@@ -1270,8 +1318,8 @@ func (vm *VM) run() (Addr, bool) {
 						vm.setFloat(c, v)
 					}
 					vm.pc = bodyAddress
-					addr, breakOut := vm.run()
-					if addr != rangeAddress {
+					addr, breakOut := vm.runBody()
+					if addr != rangeAddress || len(vm.calls) < depth {
 						return addr, breakOut
 					}
 					if breakOut {
@@ -1287,8 +1335,8 @@ func (vm *VM) run() (Addr, bool) {
 						vm.setString(c, v)
 					}
 					vm.pc = bodyAddress
-					addr, breakOut := vm.run()
-					if addr != rangeAddress {
+					addr, breakOut := vm.runBody()
+					if addr != rangeAddress || len(vm.calls) < depth {
 						return addr, breakOut
 					}
 					if breakOut {
@@ -1304,8 +1352,8 @@ func (vm *VM) run() (Addr, bool) {
 						vm.setGeneral(c, reflect.ValueOf(v))
 					}
 					vm.pc = bodyAddress
-					addr, breakOut := vm.run()
-					if addr != rangeAddress {
+					addr, breakOut := vm.runBody()
+					if addr != rangeAddress || len(vm.calls) < depth {
 						return addr, breakOut
 					}
 					if breakOut {
@@ -1321,8 +1369,8 @@ func (vm *VM) run() (Addr, bool) {
 						vm.setInt(c, int64(v))
 					}
 					vm.pc = bodyAddress
-					addr, breakOut := vm.run()
-					if addr != rangeAddress {
+					addr, breakOut := vm.runBody()
+					if addr != rangeAddress || len(vm.calls) < depth {
 						return addr, breakOut
 					}
 					if breakOut {
@@ -1338,8 +1386,8 @@ func (vm *VM) run() (Addr, bool) {
 						vm.setBool(c, v)
 					}
 					vm.pc = bodyAddress
-					addr, breakOut := vm.run()
-					if addr != rangeAddress {
+					addr, breakOut := vm.runBody()
+					if addr != rangeAddress || len(vm.calls) < depth {
 						return addr, breakOut
 					}
 					if breakOut {
@@ -1355,8 +1403,8 @@ func (vm *VM) run() (Addr, bool) {
 						vm.setString(c, v)
 					}
 					vm.pc = bodyAddress
-					addr, breakOut := vm.run()
-					if addr != rangeAddress {
+					addr, breakOut := vm.runBody()
+					if addr != rangeAddress || len(vm.calls) < depth {
 						return addr, breakOut
 					}
 					if breakOut {
@@ -1372,8 +1420,8 @@ func (vm *VM) run() (Addr, bool) {
 						vm.setGeneral(c, reflect.ValueOf(v))
 					}
 					vm.pc = bodyAddress
-					addr, breakOut := vm.run()
-					if addr != rangeAddress {
+					addr, breakOut := vm.runBody()
+					if addr != rangeAddress || len(vm.calls) < depth {
 						return addr, breakOut
 					}
 					if breakOut {
@@ -1392,8 +1440,8 @@ func (vm *VM) run() (Addr, bool) {
 							vm.setFromReflectValue(c, copyOfValue(iter.Value()))
 						}
 						vm.pc = bodyAddress
-						addr, breakOut := vm.run()
-						if addr != rangeAddress {
+						addr, breakOut := vm.runBody()
+						if addr != rangeAddress || len(vm.calls) < depth {
 							return addr, breakOut
 						}
 						if breakOut {
@@ -1423,8 +1471,8 @@ func (vm *VM) run() (Addr, bool) {
 							vm.setFromReflectValue(b, copyOfValue(u))
 						}
 						vm.pc = bodyAddress
-						addr, breakOut := vm.run()
-						if addr != rangeAddress {
+						addr, breakOut := vm.runBody()
+						if addr != rangeAddress || len(vm.calls) < depth {
 							return addr, breakOut
 						}
 						if breakOut {
@@ -1459,8 +1507,8 @@ func (vm *VM) run() (Addr, bool) {
 							vm.setFromReflectValue(c, copyOfValue(v.Index(i)))
 						}
 						vm.pc = bodyAddress
-						addr, breakOut := vm.run()
-						if addr != rangeAddress {
+						addr, breakOut := vm.runBody()
+						if addr != rangeAddress || len(vm.calls) < depth {
 							return addr, breakOut
 						}
 						if breakOut {
@@ -1477,6 +1525,7 @@ func (vm *VM) run() (Addr, bool) {
 			endAddress := vm.pc
 			rangeAddress := endAddress - 1
 			bodyAddress := endAddress + 1
+			depth := len(vm.calls)
 			s := vm.stringk(a, op < 0)
 			for i, e := range s {
 				if b != 0 {
@@ -1486,8 +1535,8 @@ func (vm *VM) run() (Addr, bool) {
 					vm.setInt(c, int64(e))
 				}
 				vm.pc = bodyAddress
-				addr, breakOut := vm.run()
-				if addr != rangeAddress {
+				addr, breakOut := vm.runBody()
+				if addr != rangeAddress || len(vm.calls) < depth {
 					return addr, breakOut
 				}
 				if breakOut {
